@@ -7,7 +7,16 @@
 //! * `adjacency`  bare `ChunkedAdjacency` (chunk capacities 1/2/3/8/64) with compaction, threshold compaction and
 //!                freezing against a multiset model after every step (`LpgStore` itself never compacts);
 //! * `engine`     the same histories through `GrafeoDB`'s direct API: battery on `db.store()`, db-level
-//!                find / index entry points, and `validate()` = exactly the model's dangling references.
+//!                find / index entry points, and `validate()` = exactly the model's dangling references; plus the
+//!                catalog-level listings (`catalog::db_listings`: `info()`, `detailed_stats()`, `schema()` with per-label /
+//!                per-type counts, `*_count`, `all_labels` / `all_edge_types` / `all_property_keys`, the `Statistics`
+//!                maps and `estimate_*` readers) against a scan of the model — `store` runs the store-level part too;
+//! * `btree_index` / `hash_index` / `trie_index`  the standalone index structures (`indexes.rs`) against plain models
+//!                after every step: `BTreeIndex` over i64 / `OrderedFloat` / `String` keys with every kind of range bound,
+//!                `HashIndex` + `FingerprintedHashIndex`, `TrieIndex` + `TrieIterator` + `LeapfrogJoin`;
+//! * `catalog`    `grafeo_engine::catalog::Catalog` histories (three dictionaries, index definitions, constraints);
+//! * `stats_collector`  `StatisticsCollector` / `ColumnStatistics` / `Histogram` (sources compiled in with `#[path]`,
+//!                the collector is not exported) against the figures' definitions over a scan of the same column.
 //!
 //! Reusable pieces for other properties (C20): [`Op`], [`ops_strategy`], [`Model`], [`Cmd`], [`apply_model`],
 //! [`apply_store`], [`IdMap`], [`battery`], [`step`].
@@ -15,8 +24,11 @@
 #![allow(unused_imports, dead_code)]
 
 pub mod adj;
+pub mod catalog;
+pub mod collect;
 pub mod engine;
 pub mod generate;
+pub mod indexes;
 pub mod model;
 pub mod store;
 
@@ -130,8 +142,12 @@ fn check_store(case: &StoreCase) -> CaseResult {
     model.allow_set_on_dead = case.set_on_dead;
     let mut ids = IdMap::new();
     battery(&store, &model, &ids)?;
+    let mut ever = catalog::Ever::default();
+    catalog::store_listings(&store, &model, &ever)?;
     for op in &case.ops {
+        ever.note(&model.resolve(op));
         step(&store, &mut model, &mut ids, op)?;
+        catalog::store_listings(&store, &model, &ever).map_err(|f| Failure { signature: f.signature, what: format!("after {op:?}: {}", f.what) })?;
     }
     index_differential(&store, &model, &ids)?;
     battery(&store, &model, &ids)?;
@@ -144,8 +160,12 @@ fn check_engine(case: &StoreCase) -> CaseResult {
     let mut model = Model::new(true);
     model.allow_set_on_dead = case.set_on_dead;
     let mut ids = IdMap::new();
+    let mut ever = catalog::Ever::default();
+    let mut known: Vec<String> = Vec::new();
+    catalog::db_listings(&db, &model, &ever, &mut known)?;
     for op in &case.ops {
         let cmd = model.resolve(op);
+        ever.note(&cmd);
         let got = engine::apply_db(&db, &cmd, &mut ids)?;
         let exp = apply_model(&mut model, &cmd);
         // the db-level remove_* calls only say whether something was removed
@@ -156,11 +176,12 @@ fn check_engine(case: &StoreCase) -> CaseResult {
         check_outcome(&cmd, &g, &e, &model)?;
         let ctx = |f: Failure| Failure { signature: f.signature, what: format!("after {cmd:?}: {}", f.what) };
         engine::db_checks(&db, &model, &ids).map_err(ctx)?;
+        catalog::db_listings(&db, &model, &ever, &mut known).map_err(ctx)?;
         battery(db.store(), &model, &ids).map_err(ctx)?;
     }
     let dangling = !model.dangling().is_empty();
     let class = format!("{}{}", if dangling { "dangling/" } else { "" }, model.class());
-    ok(model.nontrivial(), class, hash_dbg(case))
+    crate::driver::ok_with_known(model.nontrivial(), class, hash_dbg(case), known)
 }
 
 pub fn run(r: &mut Run) {
@@ -173,7 +194,18 @@ pub fn run(r: &mut Run) {
               profiles (mixed / hub / index-heavy); LpgStore::new(), backward adjacency on and off; full battery after every step. \
               Non-trivial = some adjacency list exceeds 64 entries, or a label / property / (src,dst) pair is re-added after removal, or \
               an indexed property is overwritten with a different value (adjacency sub-check: a list longer than one chunk went through \
-              compaction / freezing, or an add follows a delete on the same list). Distinct by hash of the whole case."
+              compaction / freezing, or an add follows a delete on the same list). Distinct by hash of the whole case. \
+              Index structures: histories of 1-60 ops (single ops and runs of up to the whole key universe, 1-3000 keys) on BTreeIndex \
+              (i64 / OrderedFloat / String keys from a universe listed in documented order with hand-written equivalence classes; \
+              ranges with every bound kind, ~45% of the histories ask an inverted or empty range), HashIndex / FingerprintedHashIndex \
+              (7 constructors x 3 key kinds) and TrieIndex (paths of length 0-6 over colliding node ids, fans of up to 255 siblings, \
+              iterator walks with next / seek / open, leapfrog joins over 0-4 iterators); non-trivial = the structure passed 12 keys \
+              (a B-tree node split) and an overwrite / removal / re-insert happened (trie: a path that is a prefix of another or was \
+              inserted twice, and an iterator walk or join ran). Catalog: 1-80 ops over 12 colliding names x 3 dictionaries + runs of \
+              fresh names, index create / drop (live, dropped, unknown ids), constraints with and without schema; non-trivial = a \
+              repeated get_or_create and a drop / duplicate constraint / two indexes. stats_collector: columns of 0-700 values of 9 \
+              kinds (80%) or the scan of one property after a C14 history (20%), 0-64 buckets, 0-7 MCVs; non-trivial = >= 8 non-null \
+              values with duplicates and a histogram of >= 2 buckets."
         .into();
     r.assumptions.push("delete_node does not cascade (code + delete_node_edges doc): edges of a deleted node stay live and stay listed under the dead id; create_edge does not check endpoints".into());
     r.assumptions.push("without backward adjacency, neighbors()/edges_from() with Direction::Incoming are not offered (config doc: 'turn off if you only traverse outgoing edges'): may be empty or exact, Both = Outgoing + whatever Incoming reports; edges_to / in_degree must still be exact (documented scan fallback)".into());
@@ -181,6 +213,10 @@ pub fn run(r: &mut Run) {
     r.assumptions.push("min/max pruning is only required not to rule out definite matches: same-type Int/Float/String/Bool comparisons, NaN never matches, cross-type pairs never count".into());
     r.assumptions.push("ChunkedAdjacency::mark_deleted is only called for an existing, not yet deleted (src, edge) pair and edge ids are unique, as LpgStore does".into());
     r.assumptions.push("set_node_property / set_edge_property are never aimed at ids the API has not issued".into());
+
+    r.assumptions.push("dictionary listings (all_labels / all_edge_types / all_property_keys, schema()) are 'all names': an entry may outlive its last user, so the set is bounded (names on live entities <= listed <= names the history mentioned) while every per-name count is exact; property_key_count is documented as node columns + edge columns".into());
+    r.assumptions.push("TrieIterator::seek is judged as 'first key >= target from the current position on' (leapfrog iterators only move forward); a target behind the iterator must leave it on a valid key >= target".into());
+    r.assumptions.push("ColumnStatistics: distinct_count is bounded by the coarsest (NaN = NaN, -0.0 = 0.0) and finest (bit identity) reading of 'distinct'; min/max are judged only on columns whose values are pairwise comparable; avg only on finite numeric columns; nothing is asserted about selectivity estimates".into());
 
     let thorough = r.is_thorough();
     let cfg = if thorough { GenCfg { max_len: 400, max_burst: 2000 } } else { GenCfg { max_len: 400, max_burst: 300 } };
@@ -192,4 +228,11 @@ pub fn run(r: &mut Run) {
 
     let ecfg = GenCfg { max_len: if thorough { 200 } else { 120 }, max_burst: 130 };
     r.subcheck("engine", r.cases(600, 30_000), move || store_case(ecfg), check_engine);
+
+    let (bsize, bops) = if thorough { (6000, 120) } else { (3000, 60) };
+    r.subcheck("btree_index", r.cases(40_000, 2_000_000), move || indexes::btree_case(bsize, bops), indexes::check_btree);
+    r.subcheck("hash_index", r.cases(4_000, 200_000), move || indexes::hash_case(bsize, bops), indexes::check_hash);
+    r.subcheck("trie_index", r.cases(6_000, 300_000), move || indexes::trie_case(if thorough { 120 } else { 60 }), indexes::check_trie);
+    r.subcheck("catalog", r.cases(6_000, 300_000), move || catalog::catalog_case(if thorough { 150 } else { 80 }), catalog::check_catalog);
+    r.subcheck("stats_collector", r.cases(8_000, 400_000), move || collect::collect_case(if thorough { 3000 } else { 700 }, 60), collect::check_collect);
 }
